@@ -133,6 +133,13 @@ func ParseContracts(pkgPath, filename string, file *ast.File, fsetLine func(ast.
 				}
 				out = append(out, cur)
 				lastClause = &Clause{Kind: "lemma"}
+			case "ghostvar":
+				// ghostvar name <SMT sort>: mutable ghost state (a heap component "G.name"), changed only by
+				// contracts that list it under assigns
+				name, srt, _ := strings.Cut(rest, " ")
+				out = append(out, &Contract{Kind: "ghostvar", Pkg: pkgPath, Name: strings.TrimSpace(name), RetSort: Sort(strings.TrimSpace(srt)), File: filename, Line: line})
+				cur = nil
+				lastClause = nil
 			case "ghostfn":
 				g, err := parseGhostFn(rest)
 				if err != nil {
